@@ -245,7 +245,7 @@ def check(prop, tier, replay=None):
     V.cov["exhaustive"] = True
     if not fxmode:
         # the field decomposition for ALL whole-millisecond values (symbolic integers)
-        detail, done = tlc.apalache("CliInt", [("Exists", True), ("Unique", True), ("HoursWrap", False)], wd, timeout=900)
+        detail, done = tlc.apalache("CliInt", [("Exists", True), ("Unique", True), ("HoursWrap", False)], wd, timeout=240 if tier == "quick" else 900)
         V.leg("unbounded", tool="apalache-mc 0.58", module="CliInt", obligations=3, discharged=done, detail=detail,
               checker_cmd="apalache-mc check --inv=Exists|Unique|HoursWrap --length=0 CliInt.tla")
         V.cov["obligations"] = 3
